@@ -294,6 +294,11 @@ pub fn phase(args: &Args, master: &Path) -> Report {
     );
     r.bound("cases", n);
     r.bound("max_size", *sizes(args.thorough).last().unwrap());
+    // third part: copy from special sources / across mounts
+    let r3 = crate::copysrc::run_all(args, master);
+    r.merge(r3);
+    r.rule.push_str(" ");
+    r.rule.push_str(&crate::copysrc::rule());
     // second part of the phase: read_to_end / read_to_string into caller-supplied buffers
     let r2 = crate::readend::run_all(args, master);
     r.merge(r2);
